@@ -3,9 +3,10 @@
 
    FULL STATEMENT bc_correct — PROVED (C08_bc_correct: all four routines return BC_spec / EBC_spec). *)
 From Coq Require Import QArith List Arith ZArith Permutation Sorted.
-From BCT Require Import Base.Mat Base.SumQ Base.ListX Model.Between
+From BCT Require Import Base.Mat Base.SumQ Base.ListX Model.Between Model.BetweenQ
   Proofs.BetweenAccum Proofs.BetweenReady Proofs.BetweenQueue Proofs.BetweenSpec Proofs.BetweenBin Proofs.BetweenPaths
-  Proofs.BetweenTight Proofs.BetweenLast Proofs.BetweenCount Proofs.BetweenFull Proofs.BetweenBfs Proofs.BetweenPow Proofs.BetweenScale.
+  Proofs.BetweenTight Proofs.BetweenLast Proofs.BetweenCount Proofs.BetweenFull Proofs.BetweenBfs Proofs.BetweenPow Proofs.BetweenScale
+  Proofs.BetweenCorol Proofs.BetweenRat.
 Import ListNotations.
 Open Scope Q_scope.
 
@@ -247,6 +248,79 @@ Theorem C08_wei_scale_invariant : forall k G, (0 < k)%Z -> forall n, nonneg_len 
 Proof. exact wei_scale_invariant. Qed.
 
 (* ------------------------------------------------------------------------------------------ *)
+(* (4') the sum identities as statements about what the four ROUTINES return on a 0/1 matrix     *)
+(* ------------------------------------------------------------------------------------------ *)
+Theorem C08_bin_sum_routines : forall n G, binary n G ->
+  (exists BC, betweenness_bin n G = Some BC /\ sumQ BC n == sum2Q (pair_dist_minus1 n G) n) /\
+  (exists E B, edge_betweenness_bin n G = Some (E, B) /\
+     sum2Q E n == sum2Q (pair_dist n G) n /\ sumQ B n == sum2Q (pair_dist_minus1 n G) n) /\
+  (exists BC, betweenness_wei n G = Some BC /\ sumQ BC n == sum2Q (pair_dist_minus1 n G) n) /\
+  (exists E B, edge_betweenness_wei n G = Some (E, B) /\
+     sum2Q E n == sum2Q (pair_dist n G) n /\ sumQ B n == sum2Q (pair_dist_minus1 n G) n).
+Proof. exact bin_sum_routines. Qed.
+
+(* ------------------------------------------------------------------------------------------ *)
+(* the two binary routines on matrices that are NOT 0/1 (documented input: "binary ... connection matrix")  *)
+(* ------------------------------------------------------------------------------------------ *)
+(* edge_betweenness_bin only tests `!= 0`: on EVERY matrix it returns what it returns on the 0/1 support [binz G]
+   (identical values), i.e. the specification of the support - clause ebc_correct_bin without the `binary` hypothesis *)
+Theorem C08_ebc_bin_ignores_weights :
+  (forall n G, edge_betweenness_bin n G = edge_betweenness_bin n (binz G)) /\
+  (forall n G, exists EBC BC, edge_betweenness_bin n G = Some (EBC, BC) /\
+     (forall v, (v < n)%nat -> BC v == BC_spec n (binz G) v) /\
+     (forall x y, (x < n)%nat -> (y < n)%nat -> EBC x y == EBC_spec n (binz G) x y)).
+Proof. exact (conj ebc_bin_ignores_weights ebc_bin_correct_any). Qed.
+
+(* betweenness_bin does NOT binarise (matrix powers of G itself, L = G.copy()): the statement "betweenness_bin n G is the
+   betweenness of the support of G" is FALSE; witness: diamond 0->1->3, 0->2->3 with G[0,1] = 2 (model and implementation
+   return [0, 0, 1/3, 0], the support has [0, 1/2, 1/2, 0]).  Outside the documented domain (binary matrices). *)
+Definition bc_bin_binarises : Prop := forall n G, nonneg_len n G ->
+  exists BC BC', betweenness_bin n G = Some BC /\ betweenness_bin n (binz G) = Some BC' /\
+    forall v, (v < n)%nat -> BC v == BC' v.
+Theorem C08_bc_bin_weighted_refuted :
+  (exists n G, nonneg_len n G /\
+     exists BC, betweenness_bin n G = Some BC /\ exists v, (v < n)%nat /\ ~ BC v == BC_spec n (binz G) v) /\
+  ~ bc_bin_binarises.
+Proof. exact bc_bin_weighted_refuted. Qed.
+
+(* ------------------------------------------------------------------------------------------ *)
+(* rational connection lengths (Model/BetweenQ.v: the weighted routines and the specification over Q)              *)
+(* ------------------------------------------------------------------------------------------ *)
+(* if G * k = M entrywise (k > 0, M integer) the Q routines on G return the very VALUES the Z routines return on M, and the
+   enumeration of minimum-length walks / BC_specQ / EBC_specQ on G are those of M; in particular for the matrix of
+   fractions M[i,j]/k (k = 2^20, 2^30: exactly the binary64 matrix the harness gives the implementation) *)
+Theorem C08_weiQ_reduce : forall n k G M, (0 < k)%Z -> scaled_to n k G M ->
+  (betweenness_weiQ n G = betweenness_wei n M /\ edge_betweenness_weiQ n G = edge_betweenness_wei n M) /\
+  (forall s t, spathsQ n G s t = spaths n M s t) /\
+  (forall v, BC_specQ n G v == BC_spec n M v) /\ (forall x y, EBC_specQ n G x y == EBC_spec n M x y).
+Proof. intros n k G M Hk H. exact (conj (weiQ_reduce n k G M Hk H) (specQ_reduce n k G M Hk H)). Qed.
+Theorem C08_weiQ_of_fraction : forall n k M,
+  betweenness_weiQ n (fracG k M) = betweenness_wei n M /\ edge_betweenness_weiQ n (fracG k M) = edge_betweenness_wei n M.
+Proof. exact weiQ_of_fraction. Qed.
+
+(* bc_correct for the weighted routines with RATIONAL lengths: every n, every matrix of nonnegative rationals *)
+Definition bc_correct_weiQ : Prop := forall n G, nonneg_lenQ n G ->
+  (exists BC, betweenness_weiQ n G = Some BC /\ forall v, (v < n)%nat -> BC v == BC_specQ n G v) /\
+  (exists EBC BC, edge_betweenness_weiQ n G = Some (EBC, BC) /\
+    (forall v, (v < n)%nat -> BC v == BC_specQ n G v) /\
+    (forall x y, (x < n)%nat -> (y < n)%nat -> EBC x y == EBC_specQ n G x y)).
+Theorem C08_bc_weiQ_correct : bc_correct_weiQ.
+Proof. intros n G H. exact (conj (bc_weiQ_correct n G H) (ebc_weiQ_correct n G H)). Qed.
+
+(* scaling all lengths by any positive rational c *)
+Theorem C08_weiQ_scale_invariant : forall n c G, 0 < c -> nonneg_lenQ n G ->
+  ((forall v, BC_specQ n (scaleQ c G) v == BC_specQ n G v) /\
+   (forall x y, EBC_specQ n (scaleQ c G) x y == EBC_specQ n G x y)) /\
+  (exists BC' BC, betweenness_weiQ n (scaleQ c G) = Some BC' /\ betweenness_weiQ n G = Some BC /\
+     forall v, (v < n)%nat -> BC' v == BC v) /\
+  (exists E' B' E B, edge_betweenness_weiQ n (scaleQ c G) = Some (E', B') /\ edge_betweenness_weiQ n G = Some (E, B) /\
+     (forall v, (v < n)%nat -> B' v == B v) /\ (forall x y, (x < n)%nat -> (y < n)%nat -> E' x y == E x y)).
+Proof.
+  intros n c G Hc H. destruct (weiQ_scale_invariant n c G Hc H) as [A B].
+  exact (conj (specQ_scale_invariant n c G Hc H) (conj A B)).
+Qed.
+
+(* ------------------------------------------------------------------------------------------ *)
 (* non-vacuity: a diamond with a tie (two equal-length routes 0->1->3, 0->2->3) plus an unreachable node *)
 (* ------------------------------------------------------------------------------------------ *)
 Example C08_nonvacuous_input : nonneg_len 5 (of_rows 0%Z diamond) /\ binary 2 (of_rows 0%Z [[0;1];[1;0]]%Z).
@@ -263,6 +337,18 @@ Example C08_nonvacuous_binary : binary 4 (of_rows 0%Z bin_example) /\
   option_map snd (run_ebc_bin bin_example) = Some [0; 1; 0; 1] /\
   snd (fst (run_spec bin_example)) = [0; 1; 0; 1].
 Proof. exact bin_example_ok. Qed.
+
+(* the weighted diamond of C08_bc_bin_weighted_refuted: betweenness_bin, betweenness_bin on the support, edge_betweenness_bin *)
+Example C08_nonvacuous_weighted_bin :
+  option_map (qlist 4) (betweenness_bin 4 (of_rows 0%Z wdiamond)) = Some [0; 0; 1#3; 0] /\
+  option_map (qlist 4) (betweenness_bin 4 (binz (of_rows 0%Z wdiamond))) = Some [0; 1#2; 1#2; 0] /\
+  option_map (fun r => qlist 4 (snd r)) (edge_betweenness_bin 4 (of_rows 0%Z wdiamond)) = Some [0; 1#2; 1#2; 0].
+Proof. exact wdiamond_values. Qed.
+(* rational lengths: the diamond with lengths 1/10, 2/10 (two routes of length 3/10) *)
+Example C08_nonvacuous_rational :
+  nonneg_lenQ 5 (of_rows 0 qdiamond) /\ run_bc_weiQ qdiamond = Some [0; 1#2; 1#2; 0; 0] /\
+  option_map snd (run_ebc_weiQ qdiamond) = Some [0; 1#2; 1#2; 0; 0].
+Proof. exact weiQ_nonvacuous. Qed.
 
 Print Assumptions C08_spec_enumeration_faithful.
 Print Assumptions C08_dist_spec_correct.
@@ -292,3 +378,10 @@ Print Assumptions C08_wei_eq_bin_on_binary.
 Print Assumptions C08_spec_scale_invariant.
 Print Assumptions C08_wei_scale_invariant.
 Print Assumptions C08_ebc_node_vector_eq_bc_wei.
+Print Assumptions C08_bin_sum_routines.
+Print Assumptions C08_ebc_bin_ignores_weights.
+Print Assumptions C08_bc_bin_weighted_refuted.
+Print Assumptions C08_weiQ_reduce.
+Print Assumptions C08_weiQ_of_fraction.
+Print Assumptions C08_bc_weiQ_correct.
+Print Assumptions C08_weiQ_scale_invariant.
